@@ -99,7 +99,9 @@ def build(ctx):
                                 sanitize=not ctx.quick)
 
 
-def run_mixes(ctx, rp, jobs, max_paths=None, par=4):
+def run_mixes(ctx, rp, jobs, max_paths=None, par=None):
+    if par is None:
+        par = 4 if ctx.quick else 2     # thorough graphs are large (10^5 states): limit memory
     from concurrent.futures import ThreadPoolExecutor
     errs = []
 
